@@ -804,6 +804,30 @@ func (e *Env) callExpr(ex *ast.CallExpr) (SVal, error) {
 			return mkInt(t), nil
 		}
 		return SVal{}, fmt.Errorf("%s undefined on this path", key)
+	case "isnilptr":
+		// isnilptr(p): the pointer held by cell / parameter p itself is nil (a bare p names the cell it points to)
+		name := argStr(0)
+		v, ok := e.Vars[name]
+		if !ok {
+			v, ok = e.heapVal(name)
+		}
+		if !ok && e.CellType != nil {
+			if t := e.CellType(name); t != nil {
+				v, ok = e.X.load(e.St, name, t, token.NoPos), true
+			}
+		}
+		if !ok {
+			return SVal{}, fmt.Errorf("unknown identifier %s (a pointer named by isnilptr)", name)
+		}
+		switch {
+		case v.K == KLoc && v.NilC != "":
+			return mkBool(v.NilC), nil
+		case v.K == KLoc:
+			return mkBool("false"), nil
+		case v.K == KU:
+			return mkBool(eq(v.T, "nil")), nil
+		}
+		return SVal{}, fmt.Errorf("isnilptr(%s): not a pointer", name)
 	case "did_store":
 		// did_store(cell): an atomic Store into the cell was made on this path
 		_, ok := e.St.Named["stored("+argStr(0)+")"]
